@@ -196,7 +196,8 @@ class World:
                 if rng.random() < 0.5:
                     ls.extend(self.pick_leader() for _ in range(rng.randint(1, 3)))
                 else:
-                    del ls[rng.randint(0 if rng.random() < 0.2 else 1, len(ls)):]
+                    lo = 0 if rng.random() < 0.2 else 1
+                    del ls[rng.randint(min(lo, len(ls)), max(lo, len(ls) - 1)):]
             elif k < 0.95:
                 self.add_topic()
             elif len(self.topics) > 1:
@@ -260,11 +261,11 @@ def history_case(rng, nops=None):
     kinds = []
     for k in range(nops):
         r = rng.random()
-        if k == 0 and r < 0.8:
-            r = rng.random() * 0.75
-        if r < 0.4:
+        if k == 0 and r < 0.9:
+            r = rng.random() * 0.85
+        if r < 0.3:
             op, want = T("load_metadata_all"), None
-        elif r < 0.75:
+        elif r < 0.85:
             names = sorted(w.topics)
             want = rng.sample(names, rng.randint(0, len(names)))
             if rng.random() < 0.2:
@@ -333,7 +334,7 @@ def gen(rng, tier):
         n = rng.randint(2, 4)
         hosts = [rng.choice(BOOT_POOLS[0]) for _ in range(n)]
         cases.append(bootstrap_case(rng, hosts, [h for h in sorted(set(hosts)) if rng.random() < 0.5]))
-    nh = 520 if tier == "quick" else 9000
+    nh = 1200 if tier == "quick" else 16000
     for k in range(nh):
         cases.append(history_case(rng, nops=1 + k % 8))
     return cases
@@ -506,6 +507,13 @@ def stats(case, recs):
         s["boot:unreachable=%d" % len(meta["u1"])] = 1
         return s
     s["history:len=%d" % meta["nops"]] = 1
+    for rec in recs:
+        if rec["op"].name in REQ_API:
+            obs, per_host = sent(rec, REQ_API[rec["op"].name])
+            s["routed_entries:" + rec["op"].name] = s.get("routed_entries:" + rec["op"].name, 0) + len(obs)
+            s["brokers_addressed_in_one_call=%d" % min(len(per_host), 3)] = s.get("brokers_addressed_in_one_call=%d" % min(len(per_host), 3), 0) + 1
+            if rec["op"].name == "produce_messages" and rec["impl"].name == "err":
+                s["produce_to_leaderless_rejected"] = s.get("produce_to_leaderless_rejected", 0) + 1
     for k in meta["hist"]:
         s["histop:" + k] = s.get("histop:" + k, 0) + 1
     # what the responses of the history did, read off the bodies
